@@ -25,6 +25,23 @@ func VerifC11Encode() {
 	vReach("end")
 }
 
+// VerifC11EncodeHigh: zooms 17..31, where the fully symbolic query is out of reach: the `sym` most
+// significant bits of x and of y are symbolic, the lower bits are fixed to an alternating pattern.
+func VerifC11EncodeHigh() {
+	z := vCase("z")
+	sym := vCase("sym")
+	xt := vNondetInt64("xt")
+	yt := vNondetInt64("yt")
+	vAssume(0 <= xt && xt < int64(1)<<uint(sym) && 0 <= yt && yt < int64(1)<<uint(sym))
+	low := uint(z - sym)
+	x := xt<<low | (int64(0x5555555555555555) & (int64(1)<<low - 1))
+	y := yt<<low | (int64(0x3333333333333333) & (int64(1)<<low - 1))
+	q := convertHorizontalIDToQuadkey(vID3(z, x, y))
+	vAssert(q == vInterleave(x, y, z), "quadkey digit i is 2*bit_i(y) + bit_i(x) (most significant bits symbolic)")
+	vAssert(0 <= q && q < int64(1)<<uint(2*z), "0 <= quadkey < 4^zoom")
+	vReach("end")
+}
+
 // VerifC11Decode: case z; quadkey symbolic in [0, 4^z) (leading zero digits included).
 func VerifC11Decode() {
 	z := vCase("z")
